@@ -41,9 +41,53 @@ def word(rng, n=None, chars=WORDCH):
 
 
 def phrase(rng):
-    """label / text strings: no comma, quote, bracket, '=', no leading/trailing blank."""
+    """ordinary label / text strings: no comma, quote, bracket, '=', no leading/trailing blank."""
     s = word(rng, rng.randint(1, 12), TEXTCH).strip()
     return s or 'x'
+
+
+# strings with quote characters / blanks at the ends, only quotes, empty, '#': a text region keeps them,
+# `regex_meta` (labels and other key=value items) mangles them in a way the model reproduces (F36)
+QUOTEY = ['beam 3.5"', "FOV 5'", '"M42"', "'q'", '', '"', "'", "''", '""', 'a"b', "it's", 'a\'b"c', ' lead', 'trail ',
+          ' ', "' '", 'say "hi"', '#x', 'a#b', '"\'', '\'"', ' "x" ', "5' 3\""]
+# strings whose effect spills over the neighbouring items (comma, bracket, '='): not modelled, oracle only
+SPILL = ['a, b', 'a [x]', 'a]b', 'a[b', 'x,', '[', ']', "x', color=red", "a, label='z", '[[1deg, 2deg]]', "it's, ok", 'k=v "q"']
+TEXT_OK_EXTRA = ['a, b', 'a]b', 'x,', ']', '3deg]', ', ', "x', y"]       # fine inside text[[…], '…'] (no '[' and no '=')
+TEXT_SPILL = ['a [x]', 'a[b', '[', 'a=b', 'coord=ICRS', '[[1deg, 2deg]]', "x', color=red"]
+QCH = WORDCH + ' ' * 6 + '\'"' * 8 + '_.:;!?-#\t'
+
+
+def spills(s):
+    return isinstance(s, str) and any(c in s for c in ',[]=')
+
+
+def hostile(s):
+    """a value `regex_meta` does not hand back unchanged."""
+    return isinstance(s, str) and (any(c in s for c in '\'",[]') or s != s.strip())
+
+
+def value_string(rng):
+    """label / scalar metadata strings: -> (string, spills)"""
+    t = rng.random()
+    if t < 0.7:
+        return phrase(rng), False
+    if t < 0.8:
+        return rng.choice(QUOTEY), False
+    if t < 0.96:
+        return word(rng, rng.randint(0, 8), QCH), False
+    return rng.choice(SPILL), True
+
+
+def text_string(rng):
+    """strings of text regions: -> (string, spills)"""
+    t = rng.random()
+    if t < 0.5:
+        return phrase(rng), False
+    if t < 0.65:
+        return rng.choice(QUOTEY + TEXT_OK_EXTRA), False
+    if t < 0.96:
+        return word(rng, rng.randint(0, 8), QCH + ',]'), False
+    return rng.choice(TEXT_SPILL), True
 
 
 def exc_name(e):
@@ -337,7 +381,7 @@ def gen_meta(rng, cls, sky):
     if t < 0.3:
         meta.append(['include', rng.choice([False, False, False, 0, True, 1])])
     if rng.random() < 0.45:
-        meta.append(['label', phrase(rng) if rng.random() < 0.93 else ''])
+        meta.append(['label', value_string(rng)[0]])
     if rng.random() < 0.25:
         meta.append(['type', rng.choice(['ann', 'ann', 'reg'])])
     if rng.random() < 0.25:
@@ -361,7 +405,8 @@ def gen_meta(rng, cls, sky):
         meta.append(rng.choice([['tag', ['g1', 'g2']], ['comment', 'a remark'], ['name', 'n1'], ['source', 1],
                                 ['text', 'meta text'], ['delete', 0]]))
     if rng.random() < 0.4:
-        vis.append(['color', rng.choice(['red', 'green', 'blue', '2ee6d6', 'light blue', '#00ff00'])])
+        vis.append(['color', rng.choice(['red', 'green', 'blue', '2ee6d6', 'light blue', '#00ff00'])
+                    if rng.random() < 0.9 else value_string(rng)[0]])
     if rng.random() < 0.3:
         vis.append(['linewidth', rng.choice([1, 2, 3, '2'])])
     if rng.random() < 0.15:
@@ -371,7 +416,8 @@ def gen_meta(rng, cls, sky):
     if rng.random() < 0.1:
         vis.append(['symthick', rng.choice([1, 2])])
     if rng.random() < 0.12:
-        vis.append(['font', rng.choice(['Helvetica', 'Times New Roman', 'courier'])])
+        vis.append(['font', rng.choice(['Helvetica', 'Times New Roman', 'courier'])
+                    if rng.random() < 0.85 else value_string(rng)[0]])
     if rng.random() < 0.12:
         vis.append(['fontsize', rng.choice([8, 10, 12, '11'])])
     if rng.random() < 0.1:
@@ -443,10 +489,27 @@ def gen_region(rng, cls, sky, frame, radunit, prec, tiny=False):
             s['angle'] = [rng.uniform(0.0, 6.28), 'rad']
         s['angle_cls'] = rng.choice(['Angle', 'Quantity'])
     if cls == 'text':
-        s['text'] = phrase(rng) if rng.random() < 0.95 else ''
+        s['text'] = text_string(rng)[0]
     meta, vis, rq = gen_meta(rng, cls, sky)
     s['meta'], s['visual'], s['range_q'] = meta, vis, rq
     return s
+
+
+def mark_spill(case):
+    """strings with comma / bracket / '=' in a label or scalar value (F36) or '[' / '=' in a text region (F37): their effect
+    on the reader's regular expressions spills over the whole line; such cases are not sent to the model (oracle only)."""
+    if case['kind'] == 'write':
+        vals = [v for r in case['regions'] for k, v in r['meta'] + r['visual'] if isinstance(v, str) and k != 'text']
+        texts = [r['text'] for r in case['regions'] if r['cls'] == 'text']
+    else:
+        regs = [l for l in case['lines'] if l['t'] in ('region', 'global')]
+        vals = [it['s'] for l in regs for it in l['items'] if it and 's' in it]
+        texts = [l['body']['s'] for l in regs if l['t'] == 'region' and l['body']['n'] == 'text']
+    case['spill'] = any(spills(v) for v in vals)
+    case['text_spill'] = any('[' in t or '=' in t for t in texts)
+    if case['spill'] or case['text_spill']:
+        case['nomodel'] = True
+    return case
 
 
 def gen_write_case(rng):
@@ -483,6 +546,7 @@ def gen_write_case(rng):
     elif t < 0.045 and not sky:
         radunit = 'arcsec'
     case.update({'coordsys': coordsys, 'fmt': f'.{prec}f', 'radunit': radunit, 'regions': regs})
+    mark_spill(case)
     return case
 
 
@@ -617,6 +681,10 @@ def unreadable_causes(case, inputs):
             causes.add('F21')
         if case['radunit'] == 'arcsec' and s['cls'] in ('circleannulus', 'ellipse', 'rectangle'):
             causes.add('F33')
+        if s['cls'] == 'text' and ('[' in s['text'] or '=' in s['text']):
+            causes.add('F37')
+        if any(spills(v) for k, v in s['meta'] + s['visual'] if k != 'text'):
+            causes.add('F36')
         sizes = [Fraction(x) for x in e.get('sizes', [])]
         written = [x / 2 for x in sizes] if s['cls'] == 'ellipse' else sizes
         if any(dec_prints_zero(x, p) for x in written):
@@ -625,6 +693,11 @@ def unreadable_causes(case, inputs):
                 float(f'{float(written[0]):.{p}f}') >= float(f'{float(written[1]):.{p}f}'):
             causes.add('F19')
     return sorted(causes & open_findings())
+
+
+def primary_cause(v):
+    c = [x for x in ('F37', 'F36', 'F20', 'F21', 'F33', 'F19') if x in v.get('causes', [])]
+    return c[0] if c else None
 
 
 def canon_unordered(c):
@@ -643,7 +716,8 @@ def oracle_write(case, real):
 
     def bad(kind, detail, **kw):
         V.append(dict({'kind': kind, 'detail': f"{detail} :: coordsys={case['coordsys']} fmt={case['fmt']} "
-                                                f"radunit={case['radunit']} classes={[s['cls'] for s in case['regions']]}"}, **kw))
+                                                f"radunit={case['radunit']} classes={[s['cls'] for s in case['regions']]}",
+                       'spill': bool(case.get('spill')), 'text_spill': bool(case.get('text_spill'))}, **kw))
     if 'exc' in real:
         bad('serialize_exception', real['exc'])
         return V
@@ -706,13 +780,13 @@ def oracle_write(case, real):
             if g['text'] != s['text']:
                 bad('text_lost', f"region {i}: text {s['text']!r} came back as {g['text']!r}", text_in_meta=('text' in im))
         elif str(im.get('label', '')) != '' and gm.get('label') != str(im['label']):
-            bad('label_lost', f"region {i}: label {im['label']!r} came back as {gm.get('label')!r}")
+            bad('label_lost', f"region {i}: label {im['label']!r} came back as {gm.get('label')!r}", hostile=hostile(im['label']))
         if s['cls'] == 'point' and 'symbol' in iv and gv.get('symbol') != str(iv['symbol']):
             bad('meta_lost', f'region {i}: symbol', key='symbol')
         for k in SCALAR_META + SCALAR_VIS:
             src, dst = (iv, gv) if k in SCALAR_VIS else (im, gm)
             if k in src and str(src[k]) != '' and dst.get(k) != str(src[k]):
-                bad('meta_lost', f"region {i}: {k}={src[k]!r} came back as {dst.get(k)!r}", key=k)
+                bad('meta_lost', f"region {i}: {k}={src[k]!r} came back as {dst.get(k)!r}", key=k, hostile=hostile(src[k]))
         if 'corr' in im and gm.get('corr') != [str(x) for x in im['corr']]:
             bad('meta_lost', f"region {i}: corr={im['corr']!r} came back as {gm.get('corr')!r}", key='corr')
         if 'labeloff' in iv and gv.get('labeloff') != [str(x) for x in iv['labeloff']]:
@@ -735,7 +809,10 @@ def oracle_write(case, real):
                            {e[0] for e in y['meta'] + y['visual'] if e not in x['meta'] + x['visual']}})
             geo = any({k: v for k, v in x.items() if k not in ('meta', 'visual')} != {k: v for k, v in y.items() if k not in ('meta', 'visual')}
                       for x, y in zip(parsed, real['parsed2']))
-            bad('not_fixed_point', f'parse(serialize(parse)) differs from parse; keys {keys} geometry {geo}', keys=keys, geometry=geo)
+            hk = bool(keys) and not geo and all(any(hostile(v) for sr in case['regions'] for kk, v in sr['meta'] + sr['visual'] if kk == k)
+                                                for k in keys)
+            bad('not_fixed_point', f'parse(serialize(parse)) differs from parse; keys {keys} geometry {geo}', keys=keys, geometry=geo,
+                hostile=hk)
         elif real['text3'] != real['text2']:
             bad('not_fixed_point', 'serialising the re-read regions gives another text', keys=[], geometry=False)
     return V
@@ -773,7 +850,8 @@ def oracle_read(case, real):
     V = []
 
     def bad(kind, detail, **kw):
-        V.append(dict({'kind': kind, 'detail': f"{detail} :: {real['text'][:300]!r}"}, **kw))
+        V.append(dict({'kind': kind, 'detail': f"{detail} :: {real['text'][:300]!r}",
+                       'spill': bool(case.get('spill')), 'text_spill': bool(case.get('text_spill'))}, **kw))
     regs = [l for l in case['lines'] if l['t'] == 'region']
     unitless = any(l['u'] == 'none' for r in regs for l in ref_lens(r['body']))
     if unitless:
@@ -796,7 +874,7 @@ def oracle_read(case, real):
     for l in case['lines']:
         if l['t'] == 'global':
             for x in l['items']:
-                if x and (x.get('s') != '' or 'l' in x):
+                if x and (x.get('s') != '' or x.get('q', 'none') != 'none' or 'l' in x):
                     gmeta[x['k'].lower()] = x
             continue
         if l['t'] != 'region':
@@ -804,7 +882,7 @@ def oracle_read(case, real):
         g = next(it)
         inline = {}
         for x in l['items']:
-            if x and (x.get('s') != '' or 'l' in x):
+            if x and (x.get('s') != '' or x.get('q', 'none') != 'none' or 'l' in x):
                 inline[x['k']] = x
         merged = dict(gmeta)
         merged.update(inline)
@@ -833,7 +911,8 @@ def oracle_read(case, real):
                 exp = exp if 'label' in inline else b['s']
             got = (gv if k in REF_VIS else gm).get(k)
             if exp != got:
-                bad('override_rule', f"{k}: inline={inline.get(k)} global={gmeta.get(k)} read as {got!r}", key=k)
+                bad('override_rule', f"{k}: inline={inline.get(k)} global={gmeta.get(k)} read as {got!r}", key=k,
+                    hostile=hostile(exp) or exp == '')
         if 'corr' in merged and gm.get('corr') != (merged['corr'].get('l') if 'l' in merged['corr'] else [merged['corr']['s']]):
             bad('override_rule', f"corr read as {gm.get('corr')}", key='corr')
         # geometry
@@ -1011,6 +1090,8 @@ class Check(PropertyCheck):
 
     # ---------------------------------------------------------------- model
     def requests(self, case):
+        if case.get('nomodel'):
+            return []          # oracle only (see mark_spill)
         if case['kind'] == 'write':
             with warnings.catch_warnings():
                 warnings.simplefilter('ignore')
@@ -1036,7 +1117,7 @@ class Check(PropertyCheck):
         return replies[0] if replies else None
 
     def equal(self, case, real, model):
-        if case['kind'] == 'file':
+        if case['kind'] == 'file' or case.get('nomodel'):
             return True          # no model: oracle only
         if model is None or 'fail' in model:
             return False
@@ -1094,10 +1175,20 @@ class Check(PropertyCheck):
         if fid == 'F7':
             return k == 'text_lost'
         if fid in ('F19', 'F20', 'F21', 'F33'):
-            causes = [c for c in ('F20', 'F21', 'F33', 'F19') if c in v.get('causes', [])]
+            causes = [c for c in ('F37', 'F36', 'F20', 'F21', 'F33', 'F19') if c in v.get('causes', [])]
             if k == 'roundtrip_unreadable' and causes and causes[0] == fid:
                 return True
             return fid == 'F33' and k == 'valid_file_rejected' and bool(v.get('quote_pair'))
+        if fid == 'F36':
+            # labels / scalar values that regex_meta does not hand back unchanged
+            return (k in ('label_lost', 'meta_lost', 'override_rule', 'not_fixed_point') and bool(v.get('hostile'))) or \
+                   (bool(v.get('spill')) and k in ('label_lost', 'meta_lost', 'meta_changed', 'override_rule', 'not_fixed_point',
+                                                   'valid_file_rejected', 'region_count', 'include_rule', 'ann_rule')) or \
+                   (k == 'roundtrip_unreadable' and primary_cause(v) == 'F36')
+        if fid == 'F37':
+            return (k == 'roundtrip_unreadable' and primary_cause(v) == 'F37') or \
+                   (bool(v.get('text_spill')) and k in ('valid_file_rejected', 'text_lost', 'text_rule', 'label_lost',
+                                                        'override_rule', 'region_count', 'class_changed', 'kind_rule'))
         if fid == 'F34':
             return k == 'geometry_off' and bool(v.get('nondefault_attrs'))
         if fid == 'F31':
@@ -1346,7 +1437,7 @@ def g_body(rng, pixel):
         return {'n': n, 'p': g_pt(rng, pixel), 'q': g_pt(rng, pixel)}
     if n == 'symbol':
         return {'n': n, 'c': g_pt(rng, pixel), 'sym': rng.choice(SYMBOLS)}
-    return {'n': 'text', 'c': g_pt(rng, pixel), 's': phrase(rng)}
+    return {'n': 'text', 'c': g_pt(rng, pixel), 's': text_string(rng)[0]}
 
 
 def g_items(rng, is_global, frames):
@@ -1355,7 +1446,7 @@ def g_items(rng, is_global, frames):
         f = rng.choice(frames)
         items.append({'k': 'coord' if rng.random() < 0.9 or not is_global else 'Coord', 's': rng.choice(COORD_NAMES[f])})
     if not is_global and rng.random() < 0.4:
-        items.append({'k': 'label', 's': phrase(rng), 'q': rng.choice(['single', 'single', 'double'])})
+        items.append({'k': 'label', 's': value_string(rng)[0], 'q': rng.choice(['single', 'single', 'double', 'none'])})
     for k, vals in [('color', ['red', 'green', 'blue', '2ee6d6']), ('linewidth', ['1', '2', '3']),
                     ('linestyle', ['-', '--', ':']), ('symsize', ['1', '2']), ('symthick', ['1', '2']),
                     ('font', ['Helvetica', 'courier']), ('fontsize', ['10', '12']), ('fontstyle', ['bold', 'normal']),
@@ -1456,8 +1547,8 @@ def gen_read_case(rng):
                     break
     else:
         case_note = 'plain'
-    return {'kind': 'read', 'lines': lines, 'note': case_note,
-            'ser_coordsys': rng.choice(SKY_FRAMES), 'ser_fmt': f'.{rng.choice([3, 4, 6, 8, 10])}f'}
+    return mark_spill({'kind': 'read', 'lines': lines, 'note': case_note,
+                       'ser_coordsys': rng.choice(SKY_FRAMES), 'ser_fmt': f'.{rng.choice([3, 4, 6, 8, 10])}f'})
 
 
 def real_read(case):
